@@ -217,7 +217,7 @@ PROPS = {
     },
     'C19': {
         'id': 'C19', 'area': 'plg',
-        'theorems': ['Props.C19_anon_table_injective', 'Props.C19_anon_format_injective', 'Props.C19_anon_capacity_sharp'],
+        'theorems': ['Props.C19_anon_table_injective', 'Props.C19_anon_format_injective', 'Props.C19_anon_capacity_sharp', 'Props.C19_decoders_conservative', 'Props.C19_decoders_keep_timestamp'],
         'n_quick': 1500, 'n_thorough': 40000,
     },
     'C15': {
